@@ -44,6 +44,8 @@ struct TaskInfo {
     repo: usize,
     peer: usize,
     stream: StreamId,
+    /// the connection the wire started the task on
+    session: ResourceId,
     finished: bool,
 }
 
@@ -69,7 +71,7 @@ struct World {
     tasks: Vec<TaskInfo>,
     responder_tasks: usize,
     /// responder tasks the wire handed to the worker pool: (peer, stream, finished)
-    rtasks: Vec<(usize, StreamId, bool)>,
+    rtasks: Vec<(usize, StreamId, bool, ResourceId)>,
     /// all tasks in the order the worker pool received them: (is initiator, index into tasks / rtasks)
     alltasks: Vec<(bool, usize)>,
     new_fetches: Vec<Value>,
@@ -195,14 +197,14 @@ impl World {
                     if let Some(c) = self.conns.get_mut(&p) {
                         c.opened += 1;
                     }
-                    self.tasks.push(TaskInfo { repo: r, peer: p, stream: task.stream, finished: false });
+                    self.tasks.push(TaskInfo { repo: r, peer: p, stream: task.stream, session: task.session, finished: false });
                     self.alltasks.push((true, self.tasks.len()));
                     self.new_fetches.push(json!([self.tasks.len(), r, p]));
                 }
                 FetchRequest::Responder { remote, .. } => {
                     self.responder_tasks += 1;
                     let p = self.nids.iter().position(|x| x == remote).unwrap();
-                    self.rtasks.push((p, task.stream, false));
+                    self.rtasks.push((p, task.stream, false, task.session));
                     self.alltasks.push((false, self.rtasks.len()));
                 }
             }
@@ -384,7 +386,7 @@ impl World {
                     return;
                 }
                 self.tasks[g - 1].finished = true;
-                let (repo, peer, stream) = (self.tasks[g - 1].repo, self.tasks[g - 1].peer, self.tasks[g - 1].stream);
+                let (repo, peer, stream, session) = (self.tasks[g - 1].repo, self.tasks[g - 1].peer, self.tasks[g - 1].stream, self.tasks[g - 1].session);
                 let res = match result {
                     "ok" => Ok(radicle_node::worker::fetch::FetchResult::new(self.docs[repo - 1].clone())),
                     "timeout" => Err(FetchError::Io(std::io::Error::from(std::io::ErrorKind::TimedOut))),
@@ -396,6 +398,7 @@ impl World {
                     remote: self.nids[peer],
                     result: FetchResult::Initiator { rid: self.rids[repo - 1], result: res },
                     stream,
+                    session,
                 }));
                 self.pump();
             }
@@ -407,11 +410,12 @@ impl World {
                     return;
                 }
                 self.rtasks[g - 1].2 = true;
-                let (peer, stream, _) = self.rtasks[g - 1];
+                let (peer, stream, _, session) = self.rtasks[g - 1];
                 self.wire.handle_command(Control::Worker(TaskResult {
                     remote: self.nids[peer],
                     result: FetchResult::Responder { rid: None, result: Ok(()) },
                     stream,
+                    session,
                 }));
                 self.pump();
             }
